@@ -8,7 +8,8 @@
   private to a task is `Local`: the locals of `compute`, the task's cache-manager clone, its
   random generator. Two programs are given for the pipeline  source → sample(seed) → persist():
     * `stepNew` — the code as it is now (cache key in a local variable, generator owned by the
-      task): it never touches `Shared`;
+      task): its private part `stepLocal` never READS `Shared`; the only thing it still does to
+      shared state is a dead store (`self._cid = cid`, kept for compatibility, read by nobody);
     * `stepOld` — the code as it was (key kept in `self._cid` of the shared dataset object,
       module-global `random`): kept to show that the schedule-independence theorem is not
       vacuous — the same statement is FALSE for it (concrete 2-pre-emption witness).
@@ -68,10 +69,10 @@ def sampleSpec : Nat → List Nat → List Nat
 
 def initLocal (clone : Cache) (src : List Nat) : Local := ⟨0, none, 0, src, [], clone, none⟩
 
-/-- the CURRENT code, one micro-step of task `i` (never reads or writes `Shared`):
+/-- the CURRENT code, the private part of one micro-step of task `i` (a function of the task's own state only):
  0 `cid = (self.id(), split.index)`; 1 `if not cache.has(cid)`; 2 `rng = TaskRandom(seed + index)`;
  3 one lazy draw per upstream element; 4 `cache.add(cid, data)`; 5 `return iter(cache.get(cid))`; 6 done -/
-def stepNew (j : Job) (i : Nat) (l : Local) : Local :=
+def stepLocal (j : Job) (i : Nat) (l : Local) : Local :=
   match l.pc with
   | 0 => { l with cid := some (j.rddId, i), pc := 1 }
   | 1 => if (l.cache.get (l.cid.getD (0, 0))).isSome then { l with pc := 5 } else { l with pc := 2 }
@@ -83,6 +84,11 @@ def stepNew (j : Job) (i : Nat) (l : Local) : Local :=
   | 4 => { l with cache := l.cache.put (l.cid.getD (0, 0)) l.kept, pc := 5 }
   | 5 => { l with out := l.cache.get (l.cid.getD (0, 0)), pc := 6 }
   | _ => l
+
+/-- the CURRENT code, one micro-step of task `i` on the whole state: the private step, plus the dead store
+`self._cid = cid` into the shared dataset object at the first step (nothing reads it) -/
+def stepNew (j : Job) (i : Nat) (l : Local) (s : Shared) : Local × Shared :=
+  (stepLocal next keep j i l, if l.pc = 0 then { s with attrCid := some (j.rddId, i) } else s)
 
 /-- the ORIGINAL code: the key lives in an attribute of the dataset object shared by all threads, the
 generator is the module-global one -/
@@ -109,7 +115,10 @@ structure Sys where
 
 /-- thread `i` runs one micro-step -/
 def Sys.stepNew (j : Job) (i : Nat) (s : Sys) : Sys :=
-  { s with tasks := s.tasks.modify i (Sched.stepNew next keep j i) }
+  match s.tasks[i]? with
+  | none => s
+  | some l => let r := Sched.stepNew next keep j i l s.shared
+              { tasks := s.tasks.set i r.1, shared := r.2 }
 
 def Sys.stepOld (j : Job) (i : Nat) (s : Sys) : Sys :=
   match s.tasks[i]? with
@@ -128,7 +137,7 @@ def initSys (j : Job) (driver : Cache) (sh : Shared) : Sys :=
   ⟨j.parts.zipIdx.map fun (src, i) => initLocal (cloneFor driver i) src, sh⟩
 
 /-- one task run alone to completion (the micro-program has `src.length + 6` steps) -/
-def runTask (j : Job) (i : Nat) (l : Local) : Local := iter (Sched.stepNew next keep j i) (l.todo.length + 6) l
+def runTask (j : Job) (i : Nat) (l : Local) : Local := iter (Sched.stepLocal next keep j i) (l.todo.length + 6) l
 
 /-- a PROCESS pool: every task runs on its own copy of everything; only results and new cache entries return -/
 def runIsolated (j : Job) (driver : Cache) : List Local :=
